@@ -3,7 +3,7 @@ from .. import lib, runner
 
 PROP = "C06"
 THEOREMS = ["Dec.pattern_iff_range", "Dec.selected_iff_window", "Dec.unassigned_iff", "Dec.forward_exact", "Dec.nobody_else", "Dec.r_data_is_selected", "Dec.r_data_zero_when_all_idle"]
-IMPORTS = ["SocVerif"]
+IMPORTS = ["SocVerif.Props.C06"]
 
 
 def run(rep, tier):
